@@ -190,9 +190,12 @@ func (vc *VC) verifyFunction() {
 		}
 		for _, c := range vc.spec.Ensures {
 			var parts []string
+			var split [][2]string
 			for ri, r := range rets {
 				env := vc.specEnv(fr, r.st, fr.oldSt, retResults[ri])
-				parts = append(parts, fmt.Sprintf("(=> %s %s)", r.cond, vc.trBool(env, c.E)))
+				g := vc.trBool(env, c.E)
+				parts = append(parts, fmt.Sprintf("(=> %s %s)", r.cond, g))
+				split = append(split, [2]string{r.cond, g})
 			}
 			f := parts[0]
 			if len(parts) > 1 {
@@ -200,6 +203,9 @@ func (vc *VC) verifyFunction() {
 			}
 			o := vc.obligeNoAssume(&State{pc: "true"}, fmt.Sprintf("%s#ensures.%d", vc.fnName(), c.Idx), "ensures", f, c.Src, fn.Pos())
 			o.Tag = c.Tag
+			if len(split) > 1 {
+				o.Parts = split
+			}
 		}
 		if vc.spec.HasMod {
 			vc.frameCheck(fr, exit)
